@@ -462,11 +462,15 @@ class ActionTypeHint(Action):
 
     @staticmethod
     def add_sub_defaults(parser, cfg):
+        def holds_subclass_spec(v):
+            if isinstance(v, (list, tuple)):
+                return any(holds_subclass_spec(e) for e in v)
+            return is_subclass_spec(v)
+
         def skip_sub_defaults_apply(v):
             return not (
                 isinstance(v, (str, Namespace))
-                or is_subclass_spec(v)
-                or (isinstance(v, list) and any(is_subclass_spec(e) for e in v))
+                or holds_subclass_spec(v)
                 or (isinstance(v, dict) and any(is_subclass_spec(e) for e in v.values()))
             )
 
